@@ -55,6 +55,29 @@ class FS:
             cur = nxt
         return cur
 
+    def realpath(self, path, depth=0):
+        """os.path.realpath(strict=False): links of the existing prefix are followed, what does not exist is kept lexically"""
+        if depth > 40:
+            raise ModelRaise("RuntimeError", ["Symlink loop"], cls=RuntimeError)
+        parts = list(path.parts)
+        cur = ("/",)
+        rest = parts[1:]
+        for i, comp in enumerate(rest):
+            if comp == "..":
+                cur = cur[:-1] if len(cur) > 1 else cur
+                continue
+            if comp == ".":
+                continue
+            nxt = cur + (comp,)
+            node = self.nodes.get(nxt)
+            if node is not None and node[0] == "link":
+                tgt = PurePosixPath(node[1])
+                base = tgt if tgt.is_absolute() else PurePosixPath(*cur).joinpath(tgt)
+                cur = self.realpath(base, depth + 1)
+                continue
+            cur = nxt
+        return cur
+
     def kind(self, loc):
         n = self.nodes.get(loc)
         return n[0] if n else None
@@ -111,6 +134,13 @@ class FakePath(Native):
             return self._mk(self.pure.relative_to(other.pure if isinstance(other, FakePath) else other))
         except ValueError:
             raise ModelRaise("ValueError", cls=ValueError)
+
+    def get_parents(self, eng):
+        return [self._mk(p) for p in self.pure.parents]
+
+    def resolve(self, eng, strict=False):
+        loc = self.fs.realpath(self._abs())
+        return self._mk(PurePosixPath(*loc))
 
     # ---------------------------------------------------------------- filesystem part
     def _loc(self, follow_last=True):
